@@ -882,7 +882,11 @@ def buildOvl (op : Op) (args : GArgs) : Except CallErr Request :=
   | .error e => .error e
   | .ok pieces =>
     match dispatchBody args ((op.body.map (·.media)).getD []) with
-    | none => .error .valueError
+    | none =>
+      -- the final `else:` (F62 repaired): `raise ValueError(…)` when the requestBody is required, else the request
+      -- goes out without a body
+      if (op.body.map (·.required)).getD true then .error .valueError
+      else .ok { method := op.method, path := pieces, query := none, headers := none, body := .none }
     | some b => .ok { method := op.method, path := pieces, query := none, headers := none, body := b }
 
 /-- Awaiting the emitted method: either it fails before the transport is reached, or the transport is
